@@ -113,6 +113,24 @@ theorem stops_at_first_reply (P : Policy) (hP : P ∈ policies) (lf : LoopForm) 
 example : (call Gen.Fleet.policy Gen.Fleet.loopJson 3 .none [.silent, .appError, .success]).log.getLast? =
     some ⟨some .appError, .err .server⟩ := by decide
 
+/-- More generally: an attempt that ended in anything but an io error — success, an application error,
+a reply whose frame is not a REPE frame, or a well-framed reply whose body the entry point cannot
+decode — is the last one: nothing the node *said* is retried, however wrong. -/
+theorem stops_at_any_answer (P : Policy) (hP : P ∈ policies) (lf : LoopForm) (hlf : lf ∈ loops)
+    (max : Nat) (c : Cache) (bs : List Behaviour) (r : Rec) (hr : r ∈ (call P lf max c bs).log)
+    (hans : ∀ k, r.reply ≠ .err (.io k)) : (call P lf max c bs).log.getLast? = some r := by
+  rcases mem_dropLast_or_last _ r hr with h | h
+  · obtain ⟨k, hk, _⟩ := retry_only_after_retryable P hP lf hlf max c bs r h
+    exact absurd hk (hans k)
+  · exact h
+
+/-- A well-framed reply with an undecodable body is answered once, reported as a decode error, and the
+(sound) connection is kept — for every fleet and loop, with attempts to spare. -/
+example : ∀ P ∈ policies, ∀ lf ∈ loops,
+    (call P lf 3 .none [.badBody, .success]).log = [⟨some .badBody, .err .decode⟩] ∧
+    (call P lf 3 .none [.badBody, .success]).cache = .live ∧
+    (call P lf 3 .live [.badBody]).contacts = 1 := by decide
+
 /-- With at least one attempt allowed the call reports the reply of its last attempt, and that
 attempt got a reply (`ok`), or failed with a non-retryable error, or was the `max`-th attempt
 failing with a retryable transport error. -/
